@@ -105,6 +105,7 @@ func runCase(c *Ctx, prop string, ac appCase, nontrivialKeys []string) {
 	idx.Reset()
 	w := sim.NewWorld(ac.Seed, ac.Prof, idx)
 	w.Env.Monitors = monitorsFor(prop, ac.Seed, idx)
+	w.Env.Monitors = append(w.Env.Monitors, mon.NewStateStats())
 	var dg *mon.Digest
 	if prop == "C01" && ac.CrossProcess {
 		dg = &mon.Digest{}
